@@ -604,7 +604,10 @@ func (m *mappedFile) cas32(off, old, new uint32) bool {
 //
 // See the documentation for [mappedFile] for a description of the counter record layout.
 func (m *mappedFile) entryAt(off uint32) (name []byte, next uint32, v *atomic.Uint64, ok bool) {
-	if off < m.hdrLen+hashOff || int64(off)+16 > int64(len(m.mapping.Data)) {
+	if off < m.hdrLen+hashOff || off%8 != 0 || int64(off)+16 > int64(len(m.mapping.Data)) {
+		// Out of bounds, or not aligned for the 64-bit atomic value
+		// (records are 32-byte aligned; unaligned 64-bit atomics panic
+		// on 32-bit platforms).
 		return nil, 0, nil, false
 	}
 	nameLen := m.load32(off+8) & 0x00ffffff
